@@ -37,7 +37,7 @@ def chain_then_jump_programs(rng, n):
         # in a loop, directly followed by an explicit continue
         cases.append({'src': prog(['নাম ক = ১;', 'নাম ই = ০;', 'লুপ {', '    ই = ই + ১;', '    যদি ই > ৩ {', '        থামাও;', '    }'] + ind(ch) + ['    আবার;', '    দেখাও "আবারের পরে";', '} আবার;', 'দেখাও ই;']), 'kind': 'chain-then-continue'})
         # in a loop, directly followed by a break
-        cases.append({'src': prog(['নাম ক = ১;', 'নাম ই = ০;', 'লুপ {', '    ই = ই + ১;'] + ind(ch) + ['    থামাও;', '    দেখাও "থামাওয়ের পরে";', '} আবার;', 'দেখাও ই;']), 'kind': 'chain-then-break'})
+        cases.append({'src': prog(['নাম ক = ১;', 'নাম ই = ০;', 'লুপ {', '    ই = ই + ১;'] + ind(ch) + ['    থামাও;', '    দেখাও "থামাওয়ের পরে";', '} আবার;', 'দেখাও ই;']), 'kind': 'chain-then-break'})
         # nested: the chain is the last thing in a block that is followed by the loop's closing continue
         cases.append({'src': prog(['নাম ক = ১;', 'নাম ই = ০;', 'লুপ {', '    ই = ই + ১;', '    যদি ই > ২ {', '        থামাও;', '    }', '    {'] + ind(ch, 2) + ['    }', '} আবার;', 'দেখাও ই;']), 'kind': 'chain-then-loop-end'})
         cases.append({'src': prog(['নাম ক = ১;', 'নাম ই = ০;', 'লুপ {', '    ই = ই + ১;', '    যদি ই > ২ {', '        থামাও;', '    }'] + ind(ch) + ['} আবার;', 'দেখাও ই;']), 'kind': 'chain-then-loop-end'})
@@ -68,7 +68,7 @@ def jump_only_exit_programs(rng, n):
         elif wrap == 'if':
             lines = outer + ['যদি সত্য {', '    নাম শাখার = "শাখা";'] + ind(loop) + ['    দেখাও শাখার;', '} অথবা {', '    দেখাও "ভুল";', '}'] + after
         elif wrap == 'func':
-            lines = outer + ['ফাং চালাও() {', '    নাম স্থানীয় = "ফাংশন";'] + ind(loop) + ['    দেখাও স্থানীয়;', '    দেখাও %s;' % shadow, '    ফেরত ই;', '} ফেরত;', 'দেখাও চালাও();'] + after
+            lines = outer + ['ফাং চালাও() {', '    নাম স্থানীয় = "ফাংশন";'] + ind(loop) + ['    দেখাও স্থানীয়;', '    দেখাও %s;' % shadow, '    ফেরত ই;', '} ফেরত;', 'দেখাও চালাও();'] + after
         else:
             lines = outer + ['নাম বা = ০;', 'লুপ {', '    বা = বা + ১;', '    যদি বা > ২ {', '        থামাও;', '    }', '    ই = ০;', '    নাম বাইরের_লুপের = বা;'] + ind(loop) + ['    দেখাও [বাইরের_লুপের, %s];' % shadow, '} আবার;'] + after
         cases.append({'src': prog(lines), 'kind': 'jump-only-block'})
@@ -172,7 +172,7 @@ def multi_level_assignment_programs(rng, n):
 def shared_module_fragments():
     util = prog(['নাম গণনা = ০;', 'ফাং দ্বিগুণ(ক) {', '    গণনা = গণনা + ১;', '    ফেরত ক * ২;', '} ফেরত;', 'দেখাও "util লোড";'])
     out = []
-    for a1, a2 in [('প্রথম', 'দ্বিতীয়'), ('ক', 'ক'), ('ক', 'ক/খ'), ('গ', 'গণিত')]:
+    for a1, a2 in [('প্রথম', 'দ্বিতীয়'), ('ক', 'ক'), ('ক', 'ক/খ'), ('গ', 'গণিত')]:
         p1 = prog(['মডিউল %s = "util.pakhi";' % a1, 'দেখাও %s/দ্বিগুণ(২);' % a1, 'দেখাও "P1 শেষ";'])
         p2 = prog(['মডিউল %s = "util.pakhi";' % a2, 'দেখাও %s/দ্বিগুণ(৫);' % a2, 'দেখাও %s/গণনা;' % a2, 'দেখাও "P2 শেষ";'])
         out.append({'p1': p1, 'p2': p2, 'files': [('util.pakhi', util)], 'kind': 'compose shared-module'})
@@ -218,7 +218,7 @@ def continue_after_block_programs(rng, n):
         elif kind == 'bare': blk = ['    {', '        নাম ভিতরের = "ভিতরের-" + _স্ট্রিং(ই);', '        দেখাও ভিতরের;', '    }', '    আবার;']
         else: blk = ['    যদি সত্য {', '        {', '            নাম ভিতরের = ই;', '        }', '    }', '    আবার;']
         lines = ['নাম ভিতরের = "বাইরের";', 'নাম শরীরের = "বাইরের শরীর";', 'নাম ই = ০;', 'লুপ {', '    ই = ই + ১;', '    যদি ই > %s {' % bn(rng.randint(2, 5)), '        থামাও;', '    }',
-                 '    দেখাও [ই, ভিতরের, শরীরের];', '    নাম শরীরের = "শরীর-" + _স্ট্রিং(ই);'] + blk + ['    দেখাও "এখানে নয়";', '} আবার;', 'দেখাও [ভিতরের, শরীরের, ই];']
+                 '    দেখাও [ই, ভিতরের, শরীরের];', '    নাম শরীরের = "শরীর-" + _স্ট্রিং(ই);'] + blk + ['    দেখাও "এখানে নয়";', '} আবার;', 'দেখাও [ভিতরের, শরীরের, ই];']
         if rng.random() < 0.4: lines = ['ফাং চালাও() {'] + ind(lines) + ['    ফেরত ই;', '} ফেরত;', 'দেখাও চালাও();', 'দেখাও চালাও();']
         cases.append({'src': prog(lines), 'kind': 'continue-after-block'})
     return cases
@@ -257,9 +257,9 @@ def fractional_index_programs(rng, n):
 def record_only_gc_programs():
     cases = []
     for n in (300, 700):
-        lines = ['নাম ব্যাংক = @{"নাম" -> "ক", "জমা" -> ০,};', 'নাম উপনাম = ব্যাংক;', 'নাম সঞ্চয় = @{"মালিক" -> ব্যাংক, "হার" -> ৫,};', 'নাম ই = ০;', 'লুপ {', '    যদি ই >= %s {' % bn(n), '        থামাও;', '    }',
-                 '    নাম অস্থায়ী = @{"ক" -> ই, "খ" -> @{"গ" -> ই,},};', '    ব্যাংক["জমা"] = ব্যাংক["জমা"] + অস্থায়ী["খ"]["গ"];', '    ই = ই + ১;', '} আবার;',
-                 'দেখাও ব্যাংক["জমা"];', 'দেখাও উপনাম["নাম"];', 'দেখাও সঞ্চয়["মালিক"]["জমা"];', 'নাম চতুর্থ = @{"x" -> ১,};', 'চতুর্থ["x"] = ২;', 'দেখাও সঞ্চয়["হার"];', 'দেখাও উপনাম["জমা"];', 'দেখাও চতুর্থ["x"];']
+        lines = ['নাম ব্যাংক = @{"নাম" -> "ক", "জমা" -> ০,};', 'নাম উপনাম = ব্যাংক;', 'নাম সঞ্চয় = @{"মালিক" -> ব্যাংক, "হার" -> ৫,};', 'নাম ই = ০;', 'লুপ {', '    যদি ই >= %s {' % bn(n), '        থামাও;', '    }',
+                 '    নাম অস্থায়ী = @{"ক" -> ই, "খ" -> @{"গ" -> ই,},};', '    ব্যাংক["জমা"] = ব্যাংক["জমা"] + অস্থায়ী["খ"]["গ"];', '    ই = ই + ১;', '} আবার;',
+                 'দেখাও ব্যাংক["জমা"];', 'দেখাও উপনাম["নাম"];', 'দেখাও সঞ্চয়["মালিক"]["জমা"];', 'নাম চতুর্থ = @{"x" -> ১,};', 'চতুর্থ["x"] = ২;', 'দেখাও সঞ্চয়["হার"];', 'দেখাও উপনাম["জমা"];', 'দেখাও চতুর্থ["x"];']
         cases.append({'src': prog(lines), 'kind': 'record-only-gc', 'budget': 60000, 'scheds': ['n', '1', '01']})
         lines2 = ['নাম অবস্থা = @{"তালিকা" -> [১, ২, ৩], "গণনা" -> ০,};', 'নাম ই = ০;', 'লুপ {', '    যদি ই >= %s {' % bn(n), '        থামাও;', '    }', '    নাম অ = @{"ই" -> [ই, ই],};', '    অবস্থা["গণনা"] = অবস্থা["গণনা"] + ১;', '    ই = ই + ১;', '} আবার;',
                   'দেখাও অবস্থা["তালিকা"];', 'দেখাও অবস্থা["গণনা"];', 'নাম নতুন = [৭, ৭];', 'দেখাও অবস্থা["তালিকা"];']
@@ -296,7 +296,137 @@ def residue_fragments():
     two_braces = ['দেখাও "দ্বি ক";', '}', '}', 'দেখাও "দ্বি খ";']
     deep = ['ফাং দ্বিগভীর(ন) {', '    যদি ন < ১ {', '        ফেরত ০;', '    }', '    ফেরত ১ + দ্বিগভীর(ন - ১);', '} ফেরত;', 'দেখাও দ্বিগভীর(৪০০);', 'দেখাও _টাইপ(_লিস্ট-লেন([১]));']
     stray = ['দেখাও "দ্বি ক";', 'আবার;', 'দেখাও "দ্বি খ";']
-    for p1 in (loop_break, two_loops, many_builtins, many_calls):
-        for p2 in (surplus_brace, two_braces, deep, stray):
+    multi_line_strings = ['নাম আলেখা = "এক\nদুই\n";', 'দেখাও "তিন\n";', 'নাম আআর = "চার\n\n";', 'দেখাও "P1 শেষ";']
+    late_fault = ['দেখাও "দ্বি ক";', 'নাম দ্বিখ = "পাঁচ\n";', 'দেখাও দ্বিনাই;']
+    for p1 in (loop_break, two_loops, many_builtins, many_calls, multi_line_strings):
+        for p2 in (surplus_brace, two_braces, deep, stray, late_fault):
             out.append({'p1': prog(p1), 'p2': prog(p2), 'kind': 'compose residue', 'budget': 60000})
     return out
+
+
+# ================================================================ round 10
+def double_prefix_programs():
+    """two prefix operators in a row, and calls with fewer arguments than parameters next to a same-named global"""
+    lines = ['নাম ক = ৫;', 'নাম খ = সত্য;', 'ফাং ফ(x) {', '    ফেরত x + ১;', '} ফেরত;', 'দেখাও --ক;', 'দেখাও !!খ;', 'দেখাও - -ক;', 'দেখাও !!(ক > ৩);', 'দেখাও --ফ(২);', 'দেখাও ---ক;', 'দেখাও !!!খ;', 'দেখাও -(-ক);', 'দেখাও !(!খ);',
+             'দেখাও ১ - --ক;', 'দেখাও ২ * -ক;', 'দেখাও খ & !!খ;', 'দেখাও [--ক, !!খ];']
+    cases = [{'src': prog(lines), 'kind': 'double-prefix'}, {'src': prog(['নাম খ = সত্য;', 'দেখাও -!খ;']), 'kind': 'double-prefix'}, {'src': prog(['নাম ক = ১;', 'দেখাও !-ক;']), 'kind': 'double-prefix'}]
+    few = ['নাম সূচক = ৩;', 'নাম ভিত্তি = ১০০;', 'ফাং ঘাত(ভিত্তি, সূচক) {', '    যদি _টাইপ(সূচক) == "_শূন্য" {', '        ফেরত ভিত্তি + ১;', '    }', '    ফেরত ভিত্তি * সূচক;', '} ফেরত;', 'দেখাও ঘাত(৫);', 'দেখাও ঘাত(৫, ২);', 'ফাং দুই(ক, খ) {', '    ফেরত [_টাইপ(ক), _টাইপ(খ)];', '} ফেরত;', 'দেখাও দুই(১);', 'দেখাও দুই();', 'দেখাও সূচক + ভিত্তি;', 'দেখাও ঘাত();']
+    cases.append({'src': prog(few), 'kind': 'missing-arguments'})
+    return cases
+
+
+def chain_edge_programs():
+    """C02: an empty final else followed by statements; a literal condition in a branch that is never reached"""
+    cases = []
+    for els in (['} অথবা {', '}'], ['} অথবা {', '    # কিছু না #', '}'], ['} অথবা যদি মিথ্যা {', '} অথবা {', '}']):
+        for v in ('৯৫', '৫০', '১০'):
+            body = ['ফাং মান(ন) {', '    নাম ফল = "ক";', '    যদি ন > ৯০ {', '        ফল = "A";', '    } অথবা যদি ন > ৪০ {', '        ফল = "B";'] + ['    ' + l for l in els] + ['    দেখাও ফল;', '    যদি ন > ০ {', '        দেখাও "ধনাত্মক";', '    }', '    {', '        দেখাও "ব্লক";', '    }', '    ফেরত ফল;', '} ফেরত;', 'দেখাও মান(%s);' % v, 'দেখাও "পরে";']
+            cases.append({'src': prog(body), 'kind': 'empty-final-else'})
+    for c in ('১', '"x"', '[১]', 'i % ২', '-১', '(৩)'):
+        cases.append({'src': prog(['নাম i = ৪;', 'দেখাও "আগে";', 'যদি i == ৪ {', '    দেখাও "চার";', '} অথবা যদি %s {' % c, '    দেখাও "না";', '} অথবা {', '    দেখাও "শেষ";', '}', 'দেখাও "পরে";']), 'kind': 'unreached-nonboolean'})
+        cases.append({'src': prog(['নাম i = ৫;', 'দেখাও "আগে";', 'যদি i == ৪ {', '    দেখাও "চার";', '} অথবা যদি %s {' % c, '    দেখাও "না";', '}', 'দেখাও "পরে";']), 'kind': 'reached-nonboolean'})
+    return cases
+
+
+def shadow_then_return_programs():
+    """C04: a block declares a name that shadows a parameter / an outer variable; a return, or the function's end, follows the '}'"""
+    cases = []
+    cases.append({'src': prog(['নাম ফল = ১০০;', 'ফাং ফ(ক) {', '    যদি ক > ০ {', '        নাম ক = ক * ১০;', '        নাম ফল = ক + ১;', '        দেখাও [ক, ফল];', '    }', '    ফেরত ক + ফল;', '} ফেরত;', 'দেখাও ফ(৫);', 'দেখাও ফ(-৫);', 'দেখাও ফল;',
+                               'ফাং গ(ক) {', '    যদি ক > ০ {', '        নাম ক = ২০২;', '    } অথবা {', '        নাম ক = ৩০৩;', '    }', '    ফেরত ক;', '} ফেরত;', 'দেখাও গ(৩);', 'দেখাও গ(-৩);',
+                               'ফাং ঘ() {', '    নাম র = ৭;', '    {', '        নাম র = ৮;', '    }', '} ফেরত র;']), 'kind': 'shadow-then-return'})
+    cases.append({'src': prog(['নাম কাজ = "বাইরের";', 'নাম গণনা = ১;', '{', '    ফাং কাজ() {', '        ফেরত "ভিতরের";', '    } ফেরত;', '    দেখাও কাজ();', '}', 'দেখাও কাজ;', 'দেখাও _টাইপ(কাজ);',
+                               'নাম ই = ০;', 'লুপ {', '    ই = ই + ১;', '    যদি ই > ২ {', '        থামাও;', '    }', '    দেখাও _টাইপ(গণনা);', '    ফাং গণনা() {', '        ফেরত ই;', '    } ফেরত;', '    দেখাও গণনা();', '} আবার;', 'দেখাও _টাইপ(গণনা);', 'গণনা = গণনা + ১০;', 'দেখাও গণনা;',
+                               'ফাং বাইরে() {', '    ফাং সহায়ক() {', '        ফেরত "ভিতরের সহায়ক";', '    } ফেরত;', '    ফেরত সহায়ক();', '} ফেরত;', 'ফাং সহায়ক() {', '    ফেরত "বাইরের সহায়ক";', '} ফেরত;', 'দেখাও সহায়ক();', 'দেখাও বাইরে();', 'দেখাও সহায়ক();']), 'kind': 'function-shadows-variable'})
+    return cases
+
+
+def stale_name_cache_programs(rng, n):
+    """C03: a name declared and re-assigned in a block nested in a loop body, the loop left or restarted from inside that
+    block, then the same-named outer variable re-assigned"""
+    cases = []
+    for _ in range(n):
+        jump = rng.choice(['থামাও;', 'আবার;'])
+        lim = rng.randint(2, 4)
+        lines = ['নাম অবস্থা = "ছোট";', 'নাম লগ = "";', 'নাম ই = ০;', 'লুপ {', '    ই = ই + ১;', '    যদি ই > %s {' % bn(lim + 2), '        থামাও;', '    }', '    যদি ই %% ২ == %s {' % bn(rng.randint(0, 1)).replace('%', ''),
+                 '        নাম অবস্থা = "ভিতরের";', '        অবস্থা = অবস্থা + _স্ট্রিং(ই);', '        যদি ই >= %s {' % bn(lim), '            %s' % jump, '        }', '    }', '    অবস্থা = "বড়";', '    লগ = লগ + অবস্থা + " ";', '} আবার;',
+                 'অবস্থা = অবস্থা + "!";', 'দেখাও অবস্থা;', 'দেখাও লগ;', '{', '    অবস্থা = "ব্লক";', '}', 'দেখাও অবস্থা;']
+        cases.append({'src': prog(lines).replace('%%', '%'), 'kind': 'stale-name-cache'})
+    return cases
+
+
+def shadowed_root_programs():
+    """C06 / C07: a container variable shadowed by a same-named declaration in a top-level block while a collection runs"""
+    cases = []
+    for n in (300, 500):
+        for kind in ('block', 'loop'):
+            inner = ['    নাম ফল = [০];'] + ind(counted_loop('ই', n, ['নাম অস্থায়ী = [ই, ই];', 'ফল = [ই];'])) + ['    দেখাও ফল;']
+            wrap = ['{'] + inner + ['}'] if kind == 'block' else ['নাম বা = ০;', 'লুপ {', '    বা = বা + ১;', '    যদি বা > ১ {', '        থামাও;', '    }'] + inner + ['} আবার;']
+            lines = ['নাম ফল = ["ক", "খ", "গ"];', 'নাম নথি = @{"k" -> ["মূল"],};'] + wrap + ['দেখাও ফল;', '_লিস্ট-পুশ(ফল, "ঘ");', 'নাম ধারক = [[১], [২]];', 'দেখাও ফল;', 'দেখাও নথি["k"];', 'দেখাও ধারক;']
+            cases.append({'src': prog(lines), 'kind': 'shadowed-root', 'budget': 60000, 'scheds': ['n', '1']})
+    # records holding lists of lists; the oldest record outliving many temporaries
+    lines = ['নাম পুরনো = @{"নাম" -> "প্রথম", "ঘর" -> [[১, ২], [৩, ৪]],};'] + counted_loop('ই', 600, ['নাম অ = @{"ই" -> ই,};']) + ['দেখাও পুরনো["নাম"];', 'দেখাও পুরনো["ঘর"];', '_লিস্ট-পুশ(পুরনো["ঘর"][০], ৯);', 'নাম নতুন = [[৭]];', 'দেখাও পুরনো["ঘর"];', 'দেখাও _লিস্ট-লেন(পুরনো["ঘর"][১]);']
+    cases.append({'src': prog(lines), 'kind': 'record-holds-lists', 'budget': 60000, 'scheds': ['n', '1']})
+    lines = ['নাম নম্বর = @{"তালিকা" -> [৮০, ৯০, ৭৫],};'] + counted_loop('ই', 400, ['নাম অ = [ই, ই, ই];']) + ['দেখাও নম্বর["তালিকা"];', 'দেখাও নম্বর["তালিকা"][০] + নম্বর["তালিকা"][২];', 'নাম প্রথমে_লিস্ট = [১];'] + counted_loop('জ', 400, ['নাম আ = @{"a" -> জ,};']) + ['নাম রেকর্ড = @{"x" -> ১,};', 'দেখাও রেকর্ড;', 'দেখাও নম্বর["তালিকা"];']
+    cases.append({'src': prog(lines), 'kind': 'record-holds-lists', 'budget': 60000, 'scheds': ['n', '1']})
+    return cases
+
+
+LEX_CORPUS4 = ['নাম ধাপ-১ = ৫;', 'দেখাও ধাপ-১ + সংখ্যা-২;', 'নাম ক-৯-খ = ১;', 'দেখাও "\\";', 'নাম পথ = "C:\\dir\\";', 'দেখাও _স্ট্রিং-স্প্লিট(পথ, "\\");', 'দেখাও "a\\" + "b";', 'ফেরত\rক;', 'নাম\rফল = ১;', '} অথবা\rযদি ক {',
+               'দেখাও ৯;', 'দেখাও ৯০৫ + -৯৯;', 'দেখাও [৯১, ৯.৫, -৯];', 'দেখাও [১০,২০,৩০];', 'দেখাও যোগ(১০০,২৫০);', 'দেখাও [১,২০০];', 'দেখাও [১২,৩৪৫,৬৭৮];']
+
+
+def parse_edge_programs():
+    """C12: comments between a branch's '}' and the next else; a return of a record literal; a program that starts with else"""
+    cases = []
+    cases.append({'src': prog(['ফাং শ্রেণি(ন) {', '    # প্রথম #', '    যদি ন > ৯০ {', '        ফেরত "A";', '    }', '    # দ্বিতীয় #', '    অথবা যদি ন > ৫০ {', '        ফেরত "B";', '    }', '    # শেষ #', '    অথবা {', '        ফেরত "C";', '    }', '} ফেরত;',
+                               'নাম ই = ০;', 'লুপ {', '    ই = ই + ১;', '    যদি ই > ৩ {', '        থামাও;', '    }', '    দেখাও শ্রেণি(ই * ৪০);', '} আবার;']), 'kind': 'comment-before-else'})
+    cases.append({'src': prog(['ফাং বিন্দু(ক, খ) {', '    ফেরত @{"x" -> ক, "y" -> খ,};', '} ফেরত;', 'ফাং খালি() {', '    ফেরত @{};', '} ফেরত;', 'ফাং তালিকা() {', '    ফেরত [১, @{"k" -> ২,}];', '} ফেরত;', 'ফাং গভীর(ন) {', '    যদি ন > ০ {', '        লুপ {', '            ফেরত @{"ন" -> ন,};', '        } আবার;', '    }', '    ফেরত (ন);', '} ফেরত;',
+                               'দেখাও বিন্দু(১, ২)["x"];', 'দেখাও খালি();', 'দেখাও তালিকা();', 'দেখাও গভীর(৩);', 'দেখাও গভীর(০);']), 'kind': 'return-record-literal'})
+    for first in ('অথবা {\n    দেখাও "ক";\n}\nদেখাও "খ";\n', 'অথবা যদি সত্য {\n}\n', '}\n', 'আবার;\n', 'ফেরত;\n'):
+        cases.append({'src': first, 'kind': 'starts-with-closer'})
+    return cases
+
+
+def multi_line_print_fault_programs():
+    """C13: a print-without-newline statement that spans several lines and faults"""
+    cases = []
+    for f in ('নাই', '১ + "a"', '_এরর("থামো")', 'তা[৯]', '_লিস্ট-লেন(১)'):
+        for kw in ('_দেখাও', 'দেখাও'):
+            cases.append({'src': prog(['নাম তা = [১];', 'দেখাও "আগে";', kw, '    [১,', '     %s,' % f, '     ৩]', '    ;', 'দেখাও "পরে";']), 'kind': 'fault multi-line-print'})
+            cases.append({'src': prog(['মডিউল হ = "hisab.pakhi";', 'হ/চালাও();']), 'files': [('hisab.pakhi', prog(['নাম তা = [১];', 'ফাং চালাও() {', '    ' + kw, '        "মোট: " +', '        %s' % f, '        ;', '} ফেরত;']))], 'kind': 'fault multi-line-print module'})
+    for v in ('১ / ০', '০ / ০', '-১ / ০', '[১ / ০]', '@{"k" -> ০ / ০,}'):
+        cases.append({'src': prog(['দেখাও "আগে";', 'দেখাও %s;' % v, 'দেখাও "পরে";']), 'kind': 'fault nonfinite-print'})
+        cases.append({'src': prog(['দেখাও "আগে";', '_দেখাও %s;' % v, 'দেখাও "পরে";']), 'kind': 'fault nonfinite-print'})
+    return cases
+
+
+def forward_reference_module_programs():
+    """C14: a qualified name written before its import statement and used after it; module names that are built-in names
+    without their underscore"""
+    cases = []
+    lib = prog(['নাম মান = ৫;', 'ফাং বর্গ(ক) {', '    ফেরত ক * ক;', '} ফেরত;', 'মডিউল ভ = "inner.pakhi";'])
+    inner = prog(['নাম গভীর = ৯;'])
+    cases.append({'src': prog(['ফাং হিসাব(ক) {', '    ফেরত গ/বর্গ(ক) + গ/মান + গ/ভ/গভীর;', '} ফেরত;', 'নাম পরে = ০;', 'মডিউল গ = "lib.pakhi";', 'দেখাও হিসাব(৩);', 'গ/মান = ৭;', 'দেখাও হিসাব(১);']), 'files': [('lib.pakhi', lib), ('inner.pakhi', inner)], 'kind': 'forward-qualified-name'})
+    words = prog(['নাম সংখ্যা = ১০০;', 'নাম টাইপ = "তালিকা";', 'ফাং স্ট্রিং(ক) {', '    ফেরত ক * ৪;', '} ফেরত;', 'ফাং লিস্ট-লেন(ত) {', '    ফেরত ৪০৪;', '} ফেরত;', 'নাম এরর = ২;', 'নাম দেখাও_না = ৩;'])
+    cases.append({'src': prog(['নাম সংখ্যা = ৫;', 'নাম টাইপ = "রুট";', 'ফাং স্ট্রিং(ক) {', '    ফেরত ক + ৩;', '} ফেরত;', 'দেখাও সংখ্যা;', 'দেখাও টাইপ;', 'দেখাও স্ট্রিং(৫);', 'মডিউল গ = "words.pakhi";', 'দেখাও সংখ্যা;', 'দেখাও টাইপ;', 'দেখাও স্ট্রিং(৫);', 'দেখাও গ/এরর;',
+                               'দেখাও গ/সংখ্যা;', 'দেখাও গ/টাইপ;', 'দেখাও গ/স্ট্রিং(১০০);', 'দেখাও গ/লিস্ট-লেন([]);', 'দেখাও _লিস্ট-লেন([১, ২]);']), 'files': [('words.pakhi', words)], 'kind': 'builtin-like-module-names'})
+    return cases
+
+
+def odd_import_path_programs():
+    """C15: import paths that begin with './', module files whose names begin with '.', empty module files"""
+    cases = []
+    helper = prog(['নাম মান = ৩;'])
+    for path, fname in [('./helper.pakhi', './helper.pakhi'), ('.conf.pakhi', '.conf.pakhi'), ('sub/.hidden.pakhi', 'sub/.hidden.pakhi'), ('sub/./helper.pakhi', 'sub/./helper.pakhi')]:
+        cases.append({'src': prog(['মডিউল স = "%s";' % path, 'দেখাও স/মান;', 'দেখাও "শেষ";']), 'files': [(fname, helper)], 'kind': 'odd-import-path'})
+    for body in ('', ' ', '\n', '{}', ';', '#c#'):
+        cases.append({'src': prog(['মডিউল গ = "math.pakhi";', 'মডিউল স = "settings.pakhi";', 'দেখাও গ/মান;', 'দেখাও "শেষ";']), 'files': [('math.pakhi', helper), ('settings.pakhi', body)], 'kind': 'tiny-module'})
+    return cases
+
+
+def join_fault_programs():
+    cases = []
+    for a in ('"ক,খ"', 'শূ', '৫', '@{"k" -> "v",}', 'সত্য', 'জোড়'):
+        cases.append({'src': prog(['নাম শূ;', 'ফাং জোড়() {', '} ফেরত;', 'দেখাও "আগে";', 'দেখাও _স্ট্রিং-জয়েন(%s, ",");' % a, 'দেখাও "পরে";']), 'kind': 'badargs'})
+    cases.append({'src': prog(['নাম পথ = "C:\\dir\\file";', 'নাম ভাগ = _স্ট্রিং-স্প্লিট(পথ, "\\");', 'দেখাও ভাগ;', 'দেখাও _স্ট্রিং-জয়েন(ভাগ, "\\") == পথ;', 'দেখাও _স্ট্রিং-জয়েন(ভাগ, "\\");', 'দেখাও "\\";']), 'kind': 'backslash-separator'})
+    return cases
